@@ -11,6 +11,7 @@
 #include <pthread.h>
 #include <sched.h>
 #include <unistd.h>
+#include <time.h>
 #include <fcntl.h>
 #include <locale.h>
 #include <signal.h>
@@ -36,6 +37,7 @@ struct tctx {
   bool record;
   pthread_barrier_t* bar;
   uint64_t allocs, frees;
+  FILE* shared_bad;      /* a second shared stream on which every write fails (full device, unbuffered) */
   FILE* shared;          /* one stream all threads of the run describe to (streams are not items: sharing one is legal) */
   uint64_t hist[256];    /* bytes this thread's describe calls are known to produce, per byte value */
   uint64_t shared_calls;
@@ -208,6 +210,7 @@ static void workload(struct tctx* c) {
           while (read(kfd, drain, sizeof drain) > 0) {}
           c->ops_done[F_DESCRIBE]++;
         }
+        if (c->shared_bad) { STAMP(F_DESCRIBE, cbor_describe(it, c->shared_bad)); }
         if (c->shared) {
           for (size_t q = 0; q < dlen; q++) c->hist[(uint8_t)dtext[q]]++;
           STAMP(F_DESCRIBE, cbor_describe(it, c->shared));
@@ -386,12 +389,31 @@ static void thr_case(int nthreads, int nops, uint64_t seed, bool tsan) {
   uint64_t psh0 = process_state(ps0, sizeof ps0);
   FILE* shared = tmpfile();
   if (!shared) vh_die("tmpfile failed");
+  /* once a run has ended with a blocked thread (reported below) the later runs of this shard leave the failing stream out */
+  char marker[64];
+  snprintf(marker, sizeof marker, "thr-blocked-%d.marker", O.shard);
+  FILE* shared_bad = access(marker, F_OK) == 0 ? NULL : fopen("/dev/full", "w");
+  if (shared_bad) setvbuf(shared_bad, NULL, _IONBF, 0);
   for (int i = 0; i < nthreads; i++) {
-    cs[i].id = i; cs[i].seed = seed * 1000003 + (uint64_t)i; cs[i].nops = nops; cs[i].bar = &bar; cs[i].shared = shared;
+    cs[i].id = i; cs[i].seed = seed * 1000003 + (uint64_t)i; cs[i].nops = nops; cs[i].bar = &bar; cs[i].shared = shared; cs[i].shared_bad = shared_bad;
     cs[i].record = true; cs[i].stamps = malloc(sizeof(struct opstamp) * MAXOPS);
   }
   for (int i = 0; i < nthreads; i++) if (pthread_create(&th[i], NULL, thread_main, &cs[i])) vh_die("pthread_create failed");
-  for (int i = 0; i < nthreads; i++) pthread_join(th[i], NULL);
+  {
+    /* every thread must come back: one that blocks for ever on something another thread left behind (a stream lock taken
+     * and not released, say) is reported, and the process ends there — stuck threads cannot be recovered */
+    struct timespec dl;
+    clock_gettime(CLOCK_REALTIME, &dl);
+    dl.tv_sec += 90;
+    for (int i = 0; i < nthreads; i++)
+      if (pthread_timedjoin_np(th[i], NULL, &dl) != 0) {
+        vh_violation("thread-blocked", "thread %d of %d (private items; one healthy and one failing shared stream) did not finish within 90 s of workloads that take well under a second: it is blocked on state another thread's call left behind", i, nthreads);
+        { FILE* mk = fopen(marker, "w"); if (mk) fclose(mk); }
+        fflush(NULL);
+        _exit(1);
+      }
+  }
+  if (shared_bad) fclose(shared_bad);
   pthread_barrier_destroy(&bar);
   overlaps(cs, nthreads);
   {
